@@ -36,8 +36,13 @@ class Work:
         return False
 
 
+_armed = [False]
+
+
 def _on_alarm(signum, frame):
-    raise CpuAlarm()
+    if _armed[0]:  # a signal that arrives while the limit is being taken down is dropped
+        _armed[0] = False
+        raise CpuAlarm()
 
 
 class cpu_limit:
@@ -48,10 +53,12 @@ class cpu_limit:
 
     def __enter__(self):
         self.old = signal.signal(signal.SIGVTALRM, _on_alarm)
+        _armed[0] = True
         signal.setitimer(signal.ITIMER_VIRTUAL, self.seconds)
         return self
 
     def __exit__(self, *a):
+        _armed[0] = False
         signal.setitimer(signal.ITIMER_VIRTUAL, 0)
         signal.signal(signal.SIGVTALRM, self.old)
         return False
